@@ -574,7 +574,10 @@ def reset_default_parameter_values(elements: Optional[Union[Type[Element], List[
         Specific element class(es) to reset. If none are provided, then all the elements that are included by default in pyimpspec are reset.
     """
     if elements is None:
-        elements = list(get_elements(default_only=True).values())
+        # Include the elements that are hidden from listings (e.g., the ones
+        # used by the Kramers-Kronig tests) since they are also included by
+        # default and their default values can also be modified.
+        elements = list(get_elements(default_only=True, private=True).values())
     elif isinstance(elements,  list):
         if not all(map(lambda element: issubclass(element, Element), elements)):
             raise TypeError(f"Expected a list of Type[Element] instead of {elements=}")
